@@ -454,6 +454,103 @@ def immutable_writes(case, ctx):
 
 
 # ----------------------------------------------------------------------------
+# a parent overwrites the state subtree of a child it keeps calling
+# ----------------------------------------------------------------------------
+class WChild(nn.Module):
+  depth: int = 0
+
+  @nn.compact
+  def __call__(self, x):
+    n = self.variable('state', 'n', lambda: jnp.zeros((), jnp.int32))
+    if self.is_mutable_collection('state'):
+      n.value = n.value + 1
+    y = x * (1.0 + n.value.astype(x.dtype))
+    if self.depth > 0:
+      y = WChild(self.depth - 1, name='inner')(y)
+    return y
+
+
+class WParent(nn.Module):
+  plan: tuple = ()
+  depth: int = 0
+  form: str = 'dict'
+
+  @nn.compact
+  def __call__(self, x):
+    child = WChild(self.depth, name='counter')
+    for op in self.plan:
+      if op == 'call':
+        x = child(x)
+      elif self.is_mutable_collection('state') and self.has_variable(
+          'state', 'counter'):
+        val = {'n': jnp.asarray(5, jnp.int32)}
+        node = val
+        for _ in range(self.depth):
+          node['inner'] = {'n': jnp.asarray(5, jnp.int32)}
+          node = node['inner']
+        if self.form == 'frozen':
+          val = freeze(val)
+        elif self.form == 'proxy':
+          import types as _t
+          val = _t.MappingProxyType(val)
+        self.put_variable('state', 'counter', val)
+    return x
+
+
+@clause('subtree_writes',
+        strategy=lambda: st.tuples(
+            st.lists(st.sampled_from(['call', 'call', 'reset']), min_size=1,
+                     max_size=6), st.integers(0, 2),
+            st.sampled_from(['dict', 'frozen', 'frozen']),
+            st.sampled_from([True, ['state'], False]), st.integers(0, 2**16)),
+        quick=200, thorough=8000, quick_shards=4,
+        rule='a parent module calls a child (with 0-2 nested levels of '
+        'counters) and, in between, overwrites the child\'s whole state '
+        'subtree with put_variable, the value given as a dict or as a '
+        'FrozenDict: every later call of the child sees the written values, '
+        'and what apply returns equals a Python model of the counters; non-'
+        'trivial = a call follows a write that follows a call')
+def subtree_writes(case, ctx):
+  plan, depth, form, mutable, seed = case
+  plan = ('call',) + tuple(plan)     # the child exists before any write
+  mod = WParent(plan=plan, depth=depth, form=form)
+  x = jnp.asarray(np.random.default_rng(seed).normal(size=(2,)), jnp.float32)
+  with sut('init'):
+    v = mod.init(jax.random.key(0), x)
+  base = jax.tree_util.tree_map(lambda a: a * 0, unfreeze(v))
+  with sut('apply'):
+    r = mod.apply(base, x, mutable=mutable)
+  # model: one counter per level, all levels move together
+  n, y = 0, np.asarray(x, np.float32)
+  for op in plan:
+    if op == 'call':
+      if mutable is not False:
+        n += 1
+      for _ in range(depth + 1):
+        y = y * np.float32(1.0 + n)
+    elif mutable is not False:
+      n = 5
+  if mutable is False:
+    require(np.allclose(np.asarray(r), y, rtol=1e-6), 'output differs')
+  else:
+    out, upd = r
+    require(np.allclose(np.asarray(out), y, rtol=1e-6), lambda: f'output '
+            f'{np.asarray(out)} differs from the model {y}: a value written '
+            f'with put_variable (given as {form}) was not seen by the child '
+            f'(plan {plan})')
+    node = unfreeze(upd)['state']['counter']
+    for lvl in range(depth + 1):
+      require(int(node['n']) == n, lambda: f'returned state at level {lvl} '
+              f'is {int(node["n"])}, the model says {n} (plan {plan}, value '
+              f'given as {form})')
+      node = node.get('inner', {})
+  idx = [i for i, o in enumerate(plan) if o == 'reset']
+  nt = any(('call' in plan[:i]) and ('call' in plan[i + 1:]) for i in idx)
+  ctx.note(labels=[form, f'depth{depth}'], nontrivial=nt and mutable
+           is not False)
+
+
+# ----------------------------------------------------------------------------
 @clause('method_forms',
         strategy=lambda: st.tuples(
             L.case_strategy(allow=('counter', 'stat', 'sow', 'tanh',
@@ -464,7 +561,9 @@ def immutable_writes(case, ctx):
         'Class.__call__, or a second method (by name and as a function, with '
         'a keyword argument): the default spellings return bit-identical '
         'outputs, variables and updates; the second method returns what its '
-        'body computes from __call__; inputs stay untouched; non-trivial = '
+        'body computes from __call__; an entry point that writes a new '
+        'collection after __call__ returned gets it back; inputs stay '
+        'untouched; non-trivial = '
         'program has state and the filter is neither True nor False')
 def method_forms(case, ctx):
   case, filt = case
@@ -508,6 +607,20 @@ def method_forms(case, ctx):
             '__call__ with the same updates')
     require(tree_eq(v0, v2), lambda: f'init(method=scaled given as {how}) '
             'creates different variables')
+  # an entry point that creates a collection after __call__ has returned
+  with sut('init(method=then_put)'):
+    y5, v5 = mod.init_with_output(key, x, method='then_put')
+  require('late' in v5 and np.allclose(np.asarray(v5['late']['v']),
+                                       np.sum(np.asarray(y5)), rtol=1e-5),
+          lambda: f'init(method=then_put) returned collections {sorted(v5)}: '
+          'the collection written after __call__ returned is missing or wrong')
+  require(tree_eq({c: v5[c] for c in v5 if c != 'late'}, v0), 'init(method='
+          'then_put) changed the other collections')
+  with sut('apply(method=then_put)'):
+    y6, u6 = mod.apply(base, x, mutable=['late'], method=cls.then_put)
+  require(set(u6) == {'late'} and np.allclose(
+      np.asarray(u6['late']['v']), np.sum(np.asarray(y6)), rtol=1e-5),
+          lambda: f'apply(mutable=[late], method=then_put) returned {sorted(u6)}')
   require(snap(mod) == s_mod and snap(x) == s_x and snap(base) == s_v,
           'an entry-point form changed the module, the input or the variables')
   stateful = L.uses(case['prog'], ('counter', 'stat', 'sow'), case)
